@@ -11,8 +11,13 @@
 //
 // Modes (per scenario):
 //
-//	sched   : steps Begin / MergeAt / ReadCache / Deliver per update "thread"; the interleaving
-//	          is forced by gating the hook points role.enter / role.merged per goroutine
+//	sched   : steps Begin / MergeEnter / MergeUnblock / MergeAssign / ReadCache / Deliver per update
+//	          "thread"; the interleaving is forced by gating the hook points role.enter /
+//	          merge.computed (inside SafeState.merge / SafeStatus.merge, under the role's lock) /
+//	          role.merged per goroutine. A thread released into a merge whose role is locked by a
+//	          thread parked at merge.computed cannot reach a gate: it is recorded as "blocked".
+//	          If it does get through (the lock is not held), it is driven to completion first -
+//	          the order the lock exists to exclude.
 //	free    : free running: one goroutine per leaf applies its list of updates, no gates
 //	algebra : the two product tables of the real code, pair by pair
 package main
@@ -138,6 +143,14 @@ type run struct {
 	suCh  chan task.Status
 	alive map[int]bool
 	wg    sync.WaitGroup
+	// per thread: the aggregator it is merging into / kind of the update / waiting for that role's lock
+	curAt    map[int]int
+	kindOf   map[int]string
+	blocked  map[int]bool
+	lastS    []string // last cache values read (a role locked by a parked merge cannot be read)
+	lastT    []string
+	overrun  bool
+	handover bool
 }
 
 func (r *run) handler(point string, kv ...interface{}) {
@@ -171,13 +184,40 @@ func pts(tid int) (string, string, string) {
 	return "role.enter#" + s, "role.merged#" + s, "done#" + s
 }
 
-func (r *run) caches() ([]string, []string) {
+func ptc(tid int) string { return "merge.computed#" + strconv.Itoa(tid) }
+
+const blockWait = 30 * time.Millisecond
+
+// caches of every role. A role whose lock is held by an update parked inside its merge cannot be
+// read (GetState would wait): its value is the last one read - nobody can have written it.
+func (r *run) cachesLk() ([]string, []string, []int, []int) {
 	cs := make([]string, 0, len(r.nodes))
 	ct := make([]string, 0, len(r.nodes))
-	for _, n := range r.nodes {
-		cs = append(cs, stateName(n.GetState()))
-		ct = append(ct, statusName(n.GetStatus()))
+	lks := make([]int, 0)
+	lkt := make([]int, 0)
+	if r.lastS == nil {
+		r.lastS = make([]string, len(r.nodes))
+		r.lastT = make([]string, len(r.nodes))
 	}
+	for i, n := range r.nodes {
+		if _, ok := workflow.VerifRTPeekState(n); ok {
+			r.lastS[i] = stateName(n.GetState())
+		} else {
+			lks = append(lks, i+1)
+		}
+		if _, ok := workflow.VerifRTPeekStatus(n); ok {
+			r.lastT[i] = statusName(n.GetStatus())
+		} else {
+			lkt = append(lkt, i+1)
+		}
+		cs = append(cs, r.lastS[i])
+		ct = append(ct, r.lastT[i])
+	}
+	return cs, ct, lks, lkt
+}
+
+func (r *run) caches() ([]string, []string) {
+	cs, ct, _, _ := r.cachesLk()
 	return cs, ct
 }
 
@@ -195,10 +235,39 @@ func (r *run) drain() [][]string {
 	}
 }
 
-// where is thread tid now: (pc, at, carried)
-func (r *run) where(tid int, kind string) (string, int, string, bool) {
+func (r *run) valName(pi parkInfo) string {
+	if pi.kind == "state" {
+		return stateName(sm.State(pi.v))
+	}
+	return statusName(task.Status(pi.v))
+}
+
+// another thread is parked inside the merge of the same role, same kind
+func (r *run) holderOf(tid int) int {
+	for w, a := range r.alive {
+		if a && w != tid && r.sched.NParked(ptc(w)) > 0 && r.curAt[w] == r.curAt[tid] && r.kindOf[w] == r.kindOf[tid] {
+			return w
+		}
+	}
+	return 0
+}
+
+// where is thread tid now: (pc, at, carried). mayBlock: the thread was released into a merge.
+func (r *run) where(tid int, mayBlock bool) (string, int, string, bool) {
 	pe, pm, pd := pts(tid)
-	p := r.sched.WaitParkedAny(stepTimeout, pe, pm, pd)
+	pc := ptc(tid)
+	p := ""
+	if mayBlock {
+		p = r.sched.WaitParkedAny(blockWait, pe, pm, pd, pc)
+		if p == "" && r.holderOf(tid) != 0 {
+			// it cannot get the role's lock: nothing more will happen until the holder goes on
+			r.blocked[tid] = true
+			return "blocked", r.curAt[tid], "-", true
+		}
+	}
+	if p == "" {
+		p = r.sched.WaitParkedAny(stepTimeout, pe, pm, pd, pc)
+	}
 	if p == "" {
 		return "lost", -1, "-", false
 	}
@@ -208,24 +277,23 @@ func (r *run) where(tid int, kind string) (string, int, string, bool) {
 	r.mu.Lock()
 	pi := r.info[p]
 	r.mu.Unlock()
+	if p == pc {
+		// merge.computed carries no role name: it is the role the thread entered
+		return "computed", r.curAt[tid], r.valName(pi), true
+	}
 	at := 0
 	if pi.node != "" {
 		at = r.idOf[pi.node]
 	}
-	val := "-"
-	if pi.kind == "state" {
-		val = stateName(sm.State(pi.v))
-	} else {
-		val = statusName(task.Status(pi.v))
-	}
 	if p == pe {
-		return "call", at, val, true
+		r.curAt[tid] = at
+		return "call", at, r.valName(pi), true
 	}
-	return "merged", at, val, true
+	return "merged", at, r.valName(pi), true
 }
 
 func (r *run) emit(st *Step, pc string, at int, carried string, ok bool) {
-	cs, ct := r.caches()
+	cs, ct, lks, lkt := r.cachesLk()
 	nactive := 0
 	for _, a := range r.alive {
 		if a {
@@ -233,7 +301,8 @@ func (r *run) emit(st *Step, pc string, at int, carried string, ok bool) {
 		}
 	}
 	r.rec.Emit(st.A, "scn", r.sc.ID, "t", st.T, "leaf", st.Leaf, "kind", st.Kind, "v", st.V,
-		"cs", cs, "ct", ct, "q", nactive == 0, "recv", r.drain(), "pc", pc, "at", at, "carried", carried, "ok", ok)
+		"cs", cs, "ct", ct, "q", nactive == 0, "recv", r.drain(), "pc", pc, "at", at, "carried", carried, "ok", ok,
+		"lks", lks, "lkt", lkt, "handover", r.handover)
 }
 
 // the scenario cannot be followed: the step was NOT executed
@@ -251,6 +320,10 @@ func (r *run) finishThread(tid int) {
 func (r *run) doStep(st *Step) bool {
 	pe, pm, _ := pts(st.T)
 	switch st.A {
+	case "Run":
+		// take the update to completion, one recorded step per critical section
+		r.complete(st.T)
+		return !r.alive[st.T]
 	case "Begin":
 		if r.alive[st.T] || st.Leaf < 1 || st.Leaf > len(r.nodes) {
 			r.abandon(st, "thread busy or no such leaf")
@@ -284,14 +357,63 @@ func (r *run) doStep(st *Step) bool {
 			r.mu.Unlock()
 		}(st.T, st.Kind, st.V)
 		<-started
-	case "MergeAt", "Deliver":
-		if !r.alive[st.T] || r.sched.NParked(pe) == 0 {
+	case "MergeEnter", "Deliver":
+		if !r.alive[st.T] || r.blocked[st.T] || !r.sched.WaitParked(pe, stepTimeout) {
 			r.abandon(st, "thread not parked at role.enter")
 			return false
 		}
+		r.mu.Lock()
+		node := r.info[pe].node
+		r.mu.Unlock()
+		if (node == "") != (st.A == "Deliver") {
+			r.abandon(st, "thread is at another role.enter than the step says")
+			return false
+		}
 		r.sched.Release(pe)
+	case "MergeUnblock":
+		// nothing to release: the thread gets the lock by itself once the holder has gone on
+		if !r.alive[st.T] || !r.blocked[st.T] || r.holderOf(st.T) != 0 {
+			r.abandon(st, "thread is not waiting for a free lock")
+			return false
+		}
+		r.blocked[st.T] = false
+	case "MergeAssign":
+		if !r.alive[st.T] || r.sched.NParked(ptc(st.T)) == 0 {
+			r.abandon(st, "thread not parked at merge.computed")
+			return false
+		}
+		r.mu.Lock()
+		newv := r.valName(r.info[ptc(st.T)])
+		r.mu.Unlock()
+		r.sched.Release(ptc(st.T))
+		// a thread waiting for this role's lock now gets it: once IT is parked, the assignment is done
+		for u, b := range r.blocked {
+			if b && u != st.T && r.curAt[u] == r.curAt[st.T] && r.kindOf[u] == r.kindOf[st.T] {
+				pe2, pm2, pd2 := pts(u)
+				r.sched.WaitParkedAny(stepTimeout, pe2, pm2, pd2, ptc(u))
+				// the assigning thread re-reads the role several times on its way to role.merged and may
+				// have to wait for the new holder: its arrival there is not awaited
+				pc, at, carried := "merged", r.curAt[st.T], "-"
+				if r.sched.WaitParkedAny(blockWait, pm) == pm {
+					pc, at, carried, _ = r.where(st.T, false)
+				}
+				// the role is locked again (by the thread that waited), it cannot be read: what was
+				// assigned is the value reported at merge.computed; the lock seen now is the successor's
+				if r.lastS != nil && at >= 1 && at <= len(r.nodes) {
+					if r.kindOf[st.T] == "state" {
+						r.lastS[at-1] = newv
+					} else {
+						r.lastT[at-1] = newv
+					}
+				}
+				r.handover = true
+				r.emit(st, pc, at, carried, true)
+				r.handover = false
+				return true
+			}
+		}
 	case "ReadCache":
-		if !r.alive[st.T] || r.sched.NParked(pm) == 0 {
+		if !r.alive[st.T] || r.blocked[st.T] || !r.sched.WaitParked(pm, stepTimeout) {
 			r.abandon(st, "thread not parked at role.merged")
 			return false
 		}
@@ -300,12 +422,61 @@ func (r *run) doStep(st *Step) bool {
 		r.abandon(st, "unknown action")
 		return false
 	}
-	pc, at, carried, ok := r.where(st.T, st.Kind)
+	if st.A == "Begin" {
+		r.kindOf[st.T] = st.Kind
+		r.curAt[st.T] = 0
+	}
+	pc, at, carried, ok := r.where(st.T, st.A == "MergeEnter")
 	if pc == "idle" {
 		r.finishThread(st.T)
 	}
 	r.emit(st, pc, at, carried, ok)
+	if ok && st.A == "MergeEnter" && pc != "blocked" && r.holderOf(st.T) != 0 {
+		// The thread went through a merge of a role that another update is merging into (parked between
+		// computing and assigning): the role's lock is not held. Drive this thread to completion NOW -
+		// the order the lock exists to exclude - and give up the rest of the schedule.
+		r.overrun = true
+		r.complete(st.T)
+		return false
+	}
 	return ok
+}
+
+// drive one thread to completion, step by step, each step recorded like the scheduled ones
+func (r *run) complete(t int) {
+	for n := 0; r.alive[t] && n < 64; n++ {
+		st := Step{T: t, A: r.nextAction(t)}
+		if st.A == "" || !r.doStep(&st) {
+			return
+		}
+	}
+}
+
+// the step a thread can take, from where it is parked ("" = none now)
+func (r *run) nextAction(t int) string {
+	pe, pm, _ := pts(t)
+	if r.blocked[t] {
+		if r.holderOf(t) == 0 {
+			return "MergeUnblock"
+		}
+		return ""
+	}
+	switch r.sched.ParkedAmong(pe, pm, ptc(t)) {
+	case pe:
+		r.mu.Lock()
+		node := r.info[pe].node
+		r.mu.Unlock()
+		if node == "" {
+			return "Deliver"
+		}
+		// (a merge that would have to wait for a child's lock is not started)
+		return "MergeEnter"
+	case pm:
+		return "ReadCache"
+	case ptc(t):
+		return "MergeAssign"
+	}
+	return ""
 }
 
 func walk(role workflow.Role, f func(workflow.Role)) {
@@ -408,14 +579,15 @@ func (r *run) reset() bool {
 }
 
 func runSched(rec *vtrace.Recorder, sc *Scenario) {
-	r := &run{rec: rec, sc: sc, sched: vgate.New(), tids: map[uint64]int{}, info: map[string]parkInfo{}, alive: map[int]bool{}}
+	r := &run{rec: rec, sc: sc, sched: vgate.New(), tids: map[uint64]int{}, info: map[string]parkInfo{}, alive: map[int]bool{},
+		curAt: map[int]int{}, kindOf: map[int]string{}, blocked: map[int]bool{}}
 	verifhook.SetHandler(nil)
 	if !r.reset() {
 		return
 	}
 	for t := 1; t <= 4; t++ {
 		pe, pm, pd := pts(t)
-		r.sched.Gate(pe, pm, pd)
+		r.sched.Gate(pe, pm, pd, ptc(t))
 	}
 	verifhook.SetHandler(r.handler)
 	for i := range sc.Steps {
@@ -423,26 +595,50 @@ func runSched(rec *vtrace.Recorder, sc *Scenario) {
 			break
 		}
 	}
-	// finish the schedule: every update still in flight is driven to completion step by step
-	// (lowest thread first), each step recorded like the scheduled ones
-	for t := 1; t <= 4; t++ {
-		for n := 0; r.alive[t] && n < 64; n++ {
-			pe, pm, _ := pts(t)
-			st := Step{T: t}
-			switch r.sched.ParkedAmong(pe, pm) {
-			case pe:
-				r.mu.Lock()
-				node := r.info[pe].node
-				r.mu.Unlock()
-				if node == "" {
-					st.A = "Deliver"
-				} else {
-					st.A = "MergeAt"
+	// finish the schedule: every update still in flight is driven to completion step by step, each
+	// step recorded like the scheduled ones. A thread inside a merge goes first (it may hold a lock
+	// others wait for), then the lowest thread that can move.
+	for n := 0; n < 256; n++ {
+		moved := false
+		for pass := 0; pass < 2 && !moved; pass++ {
+			for t := 1; t <= 4 && !moved; t++ {
+				if !r.alive[t] {
+					continue
 				}
-			case pm:
-				st.A = "ReadCache"
+				a := r.nextAction(t)
+				if a == "" || (pass == 0 && a != "MergeAssign" && a != "MergeUnblock") {
+					continue
+				}
+				if a == "MergeEnter" || a == "ReadCache" {
+					// (not while another thread holds a lock this step would have to wait for)
+					busy := false
+					for w := 1; w <= 4; w++ {
+						if w != t && r.alive[w] && r.sched.NParked(ptc(w)) > 0 {
+							busy = true
+						}
+					}
+					if busy {
+						continue
+					}
+				}
+				st := Step{T: t, A: a}
+				r.doStep(&st)
+				moved = true
 			}
-			if st.A == "" || !r.doStep(&st) {
+		}
+		if !moved {
+			// a thread on its way to a gate (it had to wait for a lock that is free now)?
+			any := false
+			for t := 1; t <= 4; t++ {
+				if r.alive[t] && !r.blocked[t] {
+					pe, pm, pd := pts(t)
+					if r.sched.WaitParkedAny(stepTimeout, pe, pm, pd, ptc(t)) != "" {
+						any = true
+						break
+					}
+				}
+			}
+			if !any {
 				break
 			}
 		}
@@ -469,7 +665,8 @@ func runSched(rec *vtrace.Recorder, sc *Scenario) {
 }
 
 func runFree(rec *vtrace.Recorder, sc *Scenario) {
-	r := &run{rec: rec, sc: sc, sched: vgate.New(), tids: map[uint64]int{}, info: map[string]parkInfo{}, alive: map[int]bool{}}
+	r := &run{rec: rec, sc: sc, sched: vgate.New(), tids: map[uint64]int{}, info: map[string]parkInfo{}, alive: map[int]bool{},
+		curAt: map[int]int{}, kindOf: map[int]string{}, blocked: map[int]bool{}}
 	verifhook.SetHandler(nil)
 	if !r.reset() {
 		return
